@@ -211,9 +211,11 @@ func (conn *Conn) send(call *Call) {
 	seq := conn.seq
 	var isStreaming bool
 	var closeStreaming bool
+	var openStreaming bool
 	if call.upgrade.Stream > 0 {
 		switch call.upgrade.Stream {
 		case openStream:
+			openStreaming = true
 			call.stream.seq = seq
 			conn.streams[seq] = call
 		case streaming:
@@ -242,13 +244,18 @@ func (conn *Conn) send(call *Call) {
 	ctx.ServiceMethod = call.ServiceMethod
 	err := conn.codec.WriteRequest(&ctx, call.Args)
 	if err != nil {
+		// The call may already have been completed by the reader (response, or
+		// the sweep on connection loss); complete it only if it is still registered.
 		conn.mutex.Lock()
-		delete(conn.pending, seq)
-		if call.upgrade.Stream == openStream {
-			delete(conn.streams, seq)
+		registered := isStreaming || conn.pending[seq] == call
+		if registered {
+			delete(conn.pending, seq)
+			if openStreaming {
+				delete(conn.streams, seq)
+			}
 		}
 		conn.mutex.Unlock()
-		if call != nil {
+		if registered {
 			call.Error = err
 			call.done()
 		}
@@ -283,7 +290,8 @@ func (conn *Conn) recv() {
 	if err == io.EOF {
 		err = ErrShutdown
 	}
-	for _, call := range conn.pending {
+	for seq, call := range conn.pending {
+		delete(conn.pending, seq)
 		call.Error = err
 		call.done()
 	}
